@@ -100,6 +100,7 @@ def merge_partial(agg, part, task_index):
     agg["hashes"].update(part["hashes"])
     agg["states"] += part.get("states", 0)
     agg["transitions"] += part.get("transitions", 0)
+    agg.setdefault("records", {}).update(part.get("records", {}))
     for k, v in part["counters"].items():
         agg["counters"][k] = agg["counters"].get(k, 0) + v
     for v in part["viol"]:
